@@ -48,7 +48,7 @@ def obligations(tier, ctx):
                           family="(a) SSE body grammar vs WHATWG reference"))
     # (b) matrix, one POST
     for sse in (False, True):
-        for b in range(7 if sse else 12):
+        for b in range(8 if sse else 13):
             obs.append(Ob(name=f"post_{'sse' if sse else 'body'}{b}", params=[("status", "int"), ("ct", "int"), ("idsel", "int"), ("typed", "bool")],
                           pre=["200 <= status <= 599", "0 <= ct <= 3" if not sse else "ct == 0", "0 <= idsel <= 3"],
                           call=f"H.matrix1(status, ct, {b}, {sse}, 0, idsel, typed)", backend="P", timeout=300, family="(b) status x content-type x body x id"))
@@ -69,7 +69,7 @@ def obligations(tier, ctx):
             [(302, 0, 6, False, 0, 0), (200, 0, 7, False, 0, 1), (200, 0, 0, False, 0, 0)],
         ]
     for sse in (False, True):
-        for b in ((0, 3, 5) if tier == "quick" else range(7 if sse else 12)):
+        for b in ((0, 3, 5) if tier == "quick" else range(8 if sse else 13)):
             if sse and b == 5:
                 continue
             obs.append(Ob(name=f"session_{'sse' if sse else 'body'}{b}", params=[("status", "int"), ("ct", "int"), ("idsel", "int"), ("before", "bool")],
